@@ -5,6 +5,7 @@ import Liquid.Filters.Num
 import Liquid.Filters.StrGlue
 import Liquid.Filters.Arr
 import Liquid.Filters.Json
+import Liquid.Filters.Date
 import Liquid.Compare
 /-!
 # The standard configuration: concrete `Prims` / `OutPrims` assembled from the value layer
@@ -31,7 +32,7 @@ def stdChunks (v : GoVal) : Res Cause (List Bytes) := writeChunksL v.toLiquid
 def stdOut : OutPrims := { chunks := stdChunks }
 
 /-- every modelled filter body; each `Filters/*.lean` file contributes its `impls` list here -/
-def stdFilterImpls : List (Bytes × FilterImpl) := Num.impls ++ StrGlue.impls ++ ArrF.impls ++ JsonF.impls
+def stdFilterImpls : List (Bytes × FilterImpl) := Num.impls ++ StrGlue.impls ++ ArrF.impls ++ JsonF.impls ++ DateF.impls
 
 def stdPrims : Prims :=
   { equal := fun a b => Cmp.opEq (Cmp.prep a) (Cmp.prep b),
